@@ -13,10 +13,12 @@ def mark(s: str) -> None:
 def fault_life(root: str, kind: str, ds, tables) -> None:
     """an fsync of one file kind fails (EIO, nothing is flushed) during an append: the append must not be
     acknowledged with a pointer to unflushed content"""
+    dirs = {"dir_metadata": "metadata", "dir_manifests": "metadata/manifests", "dir_data": "data", "dir_inflight": "metadata/inflight"}
     pat = {"metadata": ".metadata.json", "manifest_list": "manifest_list_", "manifest": ".manifest_", "data": ".parquet",
-           "hint": "version-hint", "marker": ".inflight"}[kind]
+           "hint": "version-hint", "marker": ".inflight"}.get(kind, "\0")
     real_fsync = os.fsync
     state = {"armed": False, "fired": 0}
+    rroot = os.path.realpath(root)
 
     def fsync(fd):
         if state["armed"] and not state["fired"]:
@@ -24,6 +26,11 @@ def fault_life(root: str, kind: str, ds, tables) -> None:
                 p = os.readlink(f"/proc/self/fd/{fd}")
             except OSError:
                 p = ""
+            if kind in dirs and p == os.path.join(rroot, dirs[kind]):
+                # the DIRECTORY fsync that persists a freshly renamed entry fails: the entry is not durable
+                state["fired"] = 1
+                os.write(2, b"MARK fault_fired\n")
+                raise OSError(5, "Input/output error (injected: directory entry not persisted)")
             if pat in p and (kind not in ("manifest", "manifest_list", "data") or ".inflight" not in p) \
                     and (kind != "manifest" or "manifest_list_" not in p):
                 state["fired"] = 1
